@@ -170,7 +170,7 @@ EXPORTS = {
                 "serialize_json": ["rfc7797.serialize_json"], "deserialize_json": ["rfc7797.deserialize_json"]},
     "jwe": {"encrypt_compact": ["jwe.encrypt_compact"],
             "decrypt_compact": ["jwe.decrypt_compact", "jwe.decrypt_compact.lib"],
-            "encrypt_json": ["jwe.encrypt_json.flattened", "jwe.encrypt_json.general"],
+            "encrypt_json": ["jwe.encrypt_json.flattened", "jwe.encrypt_json.general", "jwe.encrypt_json.history"],
             "decrypt_json": ["jwe.decrypt_json.flattened", "jwe.decrypt_json.general", "jwe.decrypt_json.edited"]},
     "jwt": {"encode": ["jwt.encode.jws", "jwt.encode.jwe"], "decode": ["jwt.decode.jws", "jwt.decode.jwe"],
             "check_sensitive_data": None},  # inspects claims only
@@ -456,6 +456,54 @@ class Run:
                               "%s raised %r (neither ValueError nor UnsupportedAlgorithmError) on %r" % (entry, r[1], merged),
                               replay)
 
+    def emitted_check(self, spec, value, cfg):
+        """whatever a producing entry point returned must itself carry headers that satisfy the property"""
+        overrides = bool(cfg) and any(n in ("crit", "alg") for n, _, _ in cfg["extra"])
+        if overrides:
+            return
+        try:
+            ms = emitted_members(spec["entry"], value)
+        except Exception as e:  # noqa
+            self.ctx.violation({"kind": "emitted-undecodable", "entry": spec["entry"]},
+                               "cannot decode the headers of the output of %s: %r" % (spec["entry"], e), spec)
+            return
+        for m in ms:
+            mm = merge(m)
+            clause = failed_clause(spec["rk"], cfg, False, mm, self.recommended)
+            if clause is not None:
+                self.ctx.violation({"kind": "emits-bad-header", "entry": spec["entry"], "clause": clause.split(":")[0]},
+                                   "%s produced output whose header violates '%s': %r" % (spec["entry"], clause, mm), spec)
+                return
+
+    # ---- object histories
+    def hist_case(self, spec):
+        ctx = self.ctx
+        r, state0, final = hist_execute(spec)
+        cfg = spec["cfg"]
+        members = state_members(final)
+        raised = "None"
+        if r[0] == "err" and final[0].get("enc") == "A128GCM":
+            raised = "(Some %s)" % c_exn(exn_class(r[1]))
+        self.cases.append("CHist false %s %s %s %s %s" % (
+            c_cfg(cfg), c_obj(state0), c_list([c_edit(e) for e in spec["edits"]]), c_bool(r[0] == "ok"), raised))
+        self.meta.append(spec)
+        ctx.note_case(("hist", json.dumps(spec, sort_keys=True, default=str)))
+        self.count("api:%s:%s" % (spec["entry"], "ok" if r[0] == "ok" else "rejected"))
+        # the harness' own fold of the edits must describe what the object really looks like
+        st = state0
+        for e in spec["edits"]:
+            st = py_apply_edit(st, e)
+        if list(st) != list(final):
+            ctx.violation({"kind": "history-state", "entry": spec["entry"]},
+                          "the object state after the edits is %r, expected %r" % (final, st), spec)
+        merged = [merge(parts) for parts in members]
+        bad = [c for c in (failed_clause("jwe", cfg, False, m, self.recommended) for m in merged) if c is not None]
+        overrides = bool(cfg) and any(n in ("crit", "alg") for n, _, _ in cfg["extra"])
+        if not overrides:
+            self.direct(r, not bad, bad[0] if bad else None, spec, spec["entry"], "jwe", merged)
+        if r[0] == "ok":
+            self.emitted_check(spec, r[1], cfg)
+
     # ---- API level
     def api_case(self, spec):
         """spec: JSON-able description of one entry-point run (see execute)."""
@@ -478,6 +526,8 @@ class Run:
         overrides = bool(cfg) and any(n in ("crit", "alg") for n, _, _ in cfg["extra"])
         if not overrides:
             self.direct(r, not bad, bad[0] if bad else None, spec, spec["entry"], rk, merged)
+        if r[0] == "ok" and (".serialize" in spec["entry"] or ".encrypt" in spec["entry"] or ".encode" in spec["entry"]):
+            self.emitted_check(spec, r[1], cfg)
         if r[0] == "ok" and spec.get("expect_payload") and r[1] != (CLAIMS if spec["entry"].startswith("jwt.") else PAYLOAD):
             ctx.violation({"kind": "wrong-payload", "entry": spec["entry"]},
                           "%s returned %r instead of the protected content" % (spec["entry"], r[1]), spec)
@@ -675,6 +725,164 @@ def execute(spec, rng):
 # --------------------------------------------------------------------------
 # generators
 # --------------------------------------------------------------------------
+# --------------------------------------------------------------------------
+# object-level histories: a JWE JSON object is used, edited, and used again
+# --------------------------------------------------------------------------
+HIST_ALLOWED = ["A128KW", "dir", "ECDH-ES+A128KW", "PBES2-HS256+A128KW", "A128GCMKW", "A128GCM", "DEF"]
+
+
+def c_opt_hdr(h):
+    return "None" if h is None else "(Some %s)" % c_hdr(h)
+
+
+def c_obj(state):
+    P, U, Rs = state
+    return "{| o_protected := %s; o_unprotected := %s; o_recipients := %s |}" % (
+        c_hdr(P), c_opt_hdr(U), c_list([c_opt_hdr(r) for r in Rs]))
+
+
+def c_edit(e):
+    how = e["how"]
+    if how == "setP":
+        return "(ESetP %s %s)" % (c_str(e["k"]), c_pv(e["v"]))
+    if how == "delP":
+        return "(EDelP %s)" % c_str(e["k"])
+    if how == "rebindP":
+        return "(ERebindP %s)" % c_hdr(e["h"])
+    if how == "setU":
+        return "(ESetU %s %s)" % (c_str(e["k"]), c_pv(e["v"]))
+    if how == "delU":
+        return "(EDelU %s)" % c_str(e["k"])
+    if how == "rebindU":
+        return "(ERebindU %s)" % c_opt_hdr(e["h"])
+    if how == "setR":
+        return "(ESetR %d%%nat %s %s)" % (e["i"], c_str(e["k"]), c_pv(e["v"]))
+    if how == "delR":
+        return "(EDelR %d%%nat %s)" % (e["i"], c_str(e["k"]))
+    if how == "rebindR":
+        return "(ERebindR %d%%nat %s)" % (e["i"], c_opt_hdr(e["h"]))
+    if how == "add_header":
+        return "(EAddHeader %d%%nat %s %s)" % (e["i"], c_str(e["k"]), c_pv(e["v"]))
+    if how == "add_recipient":
+        return "(EAddRecipient %s %s)" % (c_bool(e["flattened"]), c_opt_hdr(e["h"]))
+    raise AssertionError(how)
+
+
+def py_apply_edit(state, e):
+    """the harness' own reading of what an edit does to (protected, unprotected, [recipient headers])"""
+    P, U, Rs = copy.deepcopy(state)
+    how = e["how"]
+    if how == "setP":
+        P[e["k"]] = copy.deepcopy(e["v"])
+    elif how == "delP":
+        P.pop(e["k"], None)
+    elif how == "rebindP":
+        P = copy.deepcopy(e["h"])
+    elif how == "setU":
+        U[e["k"]] = copy.deepcopy(e["v"])
+    elif how == "delU":
+        U.pop(e["k"], None)
+    elif how == "rebindU":
+        U = copy.deepcopy(e["h"])
+    elif how == "setR":
+        Rs[e["i"]][e["k"]] = copy.deepcopy(e["v"])
+    elif how == "delR":
+        Rs[e["i"]].pop(e["k"], None)
+    elif how == "rebindR":
+        Rs[e["i"]] = copy.deepcopy(e["h"])
+    elif how == "add_header":
+        Rs[e["i"]] = dict(Rs[e["i"]] or {}, **{e["k"]: copy.deepcopy(e["v"])})
+    elif how == "add_recipient":
+        Rs = [copy.deepcopy(e["h"])] if e["flattened"] else Rs + [copy.deepcopy(e["h"])]
+    return P, U, Rs
+
+
+def obj_apply_edit(obj, e):
+    """the same edit on the live joserfc object, through its public attributes / methods"""
+    how = e["how"]
+    if how == "setP":
+        obj.protected[e["k"]] = copy.deepcopy(e["v"])
+    elif how == "delP":
+        obj.protected.pop(e["k"], None)
+    elif how == "rebindP":
+        obj.protected = copy.deepcopy(e["h"])
+    elif how == "setU":
+        obj.unprotected[e["k"]] = copy.deepcopy(e["v"])
+    elif how == "delU":
+        obj.unprotected.pop(e["k"], None)
+    elif how == "rebindU":
+        obj.unprotected = copy.deepcopy(e["h"])
+    elif how == "setR":
+        obj.recipients[e["i"]].header[e["k"]] = copy.deepcopy(e["v"])
+    elif how == "delR":
+        obj.recipients[e["i"]].header.pop(e["k"], None)
+    elif how == "rebindR":
+        obj.recipients[e["i"]].header = copy.deepcopy(e["h"])
+    elif how == "add_header":
+        obj.recipients[e["i"]].add_header(e["k"], copy.deepcopy(e["v"]))
+    elif how == "add_recipient":
+        obj.add_recipient(copy.deepcopy(e["h"]), jwe_key(e["mode"]))
+
+
+def obj_state(obj):
+    return (copy.deepcopy(obj.protected), copy.deepcopy(obj.unprotected),
+            [copy.deepcopy(r.header) for r in obj.recipients])
+
+
+def state_members(state):
+    P, U, Rs = state
+    return [[p for p in (P, U, r) if p is not None] for r in Rs]
+
+
+def hist_first_operation(spec):
+    """build the object and put it through a first, valid operation (under a lax registry)"""
+    from joserfc import jwe
+    lax = permissive("jwe", HIST_ALLOWED)
+    P, U, Rs = copy.deepcopy(spec["init"])
+    cls = jwe.FlattenedJSONEncryption if spec["flattened"] else jwe.GeneralJSONEncryption
+    obj = cls(P, PAYLOAD, U)
+    for h, mode in zip(Rs, spec["modes"]):
+        obj.add_recipient(h, jwe_key(mode))
+    data = jwe.encrypt_json(obj, None, registry=lax)
+    if spec["start"] == "decrypt":
+        def keyfn(rcp):
+            a = rcp.headers().get("alg")
+            return jwe_key(a) if isinstance(a, str) else oct_key(K16)
+        obj = jwe.decrypt_json(data, keyfn, registry=lax)      # a received object, to be re-encrypted
+    return obj
+
+
+def hist_execute(spec):
+    """-> (result of the second operation, state before the edits, state the second operation sees)"""
+    from joserfc import jwe
+    cfg = spec["cfg"]
+    reg = None if cfg is None else make_registry("jwe", cfg)
+    obj = hist_first_operation(spec)
+    state0 = obj_state(obj)
+    for e in spec["edits"]:
+        obj_apply_edit(obj, e)
+    final = obj_state(obj)
+    r = call(jwe.encrypt_json, obj, None, registry=reg)
+    return r, state0, final
+
+
+def emitted_members(entry, value):
+    """the header parts carried by what a producing entry point returned (decoded here)"""
+    def dec(seg):
+        seg = seg if isinstance(seg, str) else seg.decode()
+        return json.loads(base64.urlsafe_b64decode(seg + "=" * (-len(seg) % 4)))
+    if isinstance(value, str):
+        return [[dec(value.split(".")[0])]]
+    if "signatures" in value:
+        return [[p for p in (dec(m["protected"]) if "protected" in m else None, m.get("header")) if p is not None]
+                for m in value["signatures"]]
+    if "signature" in value:
+        return [[p for p in (dec(value["protected"]) if "protected" in value else None, value.get("header")) if p is not None]]
+    prot = dec(value["protected"])
+    rcs = value["recipients"] if "recipients" in value else [value]
+    return [[p for p in (prot, value.get("unprotected"), rc.get("header")) if p is not None] for rc in rcs]
+
+
 def perturb(rng, h, names, values=None):
     """one random edit of a header dict"""
     r = rng.random()
@@ -941,6 +1149,97 @@ def gen_api_jwe_produce(run, ctx):
                 run.api_case(spec)
 
 
+def gen_api_jwe_history(run, ctx):
+    """encrypt (or decrypt) -> edit the object's header fields -> encrypt again"""
+    rng = ctx.rng
+    names = [n for n in ALL_NAMES if n != "b64"] + ["crit", "kid", "kid", "foo"]
+    for _ in range(ctx.scale(260, 3000)):
+        flattened = rng.random() < 0.5
+        nrec = 1 if flattened else rng.choice([1, 1, 2])
+        modes = [rng.choice(["A128KW", "dir", "ECDH-ES+A128KW", "PBES2-HS256+A128KW", "A128GCMKW"] if nrec == 1
+                            else ["A128KW", "ECDH-ES+A128KW", "PBES2-HS256+A128KW", "A128GCMKW"]) for _r in range(nrec)]
+        P, U, Rs = {"enc": "A128GCM"}, None, [None] * nrec
+        if nrec == 1:
+            i = rng.randrange(3)
+            if i == 0:
+                P["alg"] = modes[0]
+            elif i == 1:
+                U = {"alg": modes[0]}
+            else:
+                Rs[0] = {"alg": modes[0]}
+        else:
+            Rs = [{"alg": m} for m in modes]
+        if rng.random() < 0.4:
+            tgt = rng.randrange(3)
+            if tgt == 0:
+                P["kid"] = "k1"
+            elif tgt == 1:
+                U = dict(U or {}, kid="k1")
+            else:
+                Rs[0] = dict(Rs[0] or {}, kid="k1")
+        for j in range(nrec):
+            if modes[j].startswith("PBES2"):
+                Rs[j] = dict(Rs[j] or {}, p2c=rng.choice([1, 8]))
+        need = [m for m in modes if m not in run.recommended]
+        cfg = api_cfg("jwe", rng, need_allowed=(need + ["A128KW", "A128GCM", "DEF"]) if need else None)
+        spec = {"entry": "jwe.encrypt_json.history", "rk": "jwe", "cfg": cfg, "cm": False, "flattened": flattened,
+                "start": rng.choice(["encrypt", "encrypt", "decrypt"]), "init": [P, U, Rs], "modes": modes, "edits": []}
+        state = obj_state(hist_first_operation(spec))       # structure of the object after the first operation
+        modes2 = list(modes)
+        for _e in range(rng.choice([0, 1, 1, 1, 2, 2, 3])):
+            Pn, Un, Rn = state
+            loc = rng.choice(["P", "U", "R", "R"])
+            n = rng.choice(names)
+            v = rand_crit(rng, merge(state_members(state)[0])) if n == "crit" and rng.random() < 0.7 else api_values(n, rng)
+            r = rng.random()
+            if r < 0.06 and not any(m in ("dir",) for m in modes2):
+                h = {"alg": "A128KW"}
+                if rng.random() < 0.4:
+                    h[n] = v
+                e = {"how": "add_recipient", "flattened": flattened, "h": h, "mode": "A128KW"}
+                modes2 = ["A128KW"] if flattened else modes2 + ["A128KW"]
+            elif loc == "P":
+                if r < 0.2 and Pn:
+                    e = {"how": "delP", "k": rng.choice(list(Pn))}
+                elif r < 0.4:
+                    e = {"how": "rebindP", "h": dict(Pn, **{n: v})}
+                else:
+                    e = {"how": "setP", "k": n, "v": v}
+            elif loc == "U":
+                if Un is None or r < 0.4:
+                    e = {"how": "rebindU", "h": dict(Un or {}, **{n: v}) if r > 0.05 else None}
+                elif r < 0.5 and Un:
+                    e = {"how": "delU", "k": rng.choice(list(Un))}
+                else:
+                    e = {"how": "setU", "k": n, "v": v}
+            else:
+                i = rng.randrange(len(Rn))
+                if r < 0.3:
+                    e = {"how": "add_header", "i": i, "k": n, "v": v}
+                elif Rn[i] is None or r < 0.5:
+                    e = {"how": "rebindR", "i": i, "h": dict(Rn[i] or {}, **{n: v}) if r > 0.34 else None}
+                elif r < 0.6 and Rn[i]:
+                    e = {"how": "delR", "i": i, "k": rng.choice(list(Rn[i]))}
+                else:
+                    e = {"how": "setR", "i": i, "k": n, "v": v}
+            spec["edits"].append(e)
+            state = py_apply_edit(state, e)
+        spec["modes_after"] = modes2
+        # keep the second operation valid whenever its header is (same rules as for fresh objects)
+        Pf = state[0]
+        ok_shape = len(state[2]) == len(modes2)
+        for m, mode in zip(state_members(state), modes2):
+            mm = merge(m)
+            if type(mm.get("alg")) is str and mm["alg"] != mode:
+                ok_shape = False
+            if type(mm.get("enc")) is str and Pf.get("enc") != "A128GCM":
+                ok_shape = False
+            if type(mm.get("zip")) is str and "zip" in Pf and Pf["zip"] != "DEF":
+                ok_shape = False
+        if ok_shape and json_ok(spec):
+            run.hist_case(spec)
+
+
 def gen_api_jwe_consume_own(run, ctx):
     rng = ctx.rng
     names = [n for n in ALL_NAMES if n != "b64"] + ["crit", "kid"]
@@ -1072,6 +1371,7 @@ def run(ctx):
     gen_api_jwe_produce(R, ctx)
     gen_api_jwe_consume_own(R, ctx)
     gen_api_jwe_consume_lib(R, ctx)
+    gen_api_jwe_history(R, ctx)
     n_api = len(R.cases) - n_fn
     # the draft algorithms (ECDH-1PU: skid) are registered last: the registry is process-global
     from joserfc.drafts.jwe_ecdh_1pu import register_ecdh_1pu
@@ -1158,6 +1458,12 @@ def replay(path):
         clause = failed_clause(r["rk"], r["cfg"], r["cm"], r["header"], rec)
         print("implementation:", res, "| property clause violated:", clause)
         return 1 if (res[0] == "ok") != (clause is None) else 0
+    if r.get("entry") == "jwe.encrypt_json.history":
+        res, state0, final = hist_execute(r)
+        merged = [merge(p) for p in state_members(final)]
+        bad = [c for c in (failed_clause("jwe", r["cfg"], False, m, rec) for m in merged) if c]
+        print("second operation:", res, "| current merged headers:", merged, "| property clauses violated:", bad)
+        return 1 if (res[0] == "ok") != (not bad) else 0
     if "entry" in r:
         res, members = execute(r, random.Random(0))
         merged = [merge(entry_parts(r["entry"], p)) for p in members]
